@@ -395,6 +395,24 @@ def run_chain(case):
                 'its first frame', [(last['w'], W)],
                 [_short(e) for e in ins], tail=tail)
         return res
+    # clear_current of every request of the chain: the handle that was left
+    # keeps the world that asked exactly when its own request did not say
+    # clear_current (the flags of ANOTHER request of the chain do not count)
+    if ret is None:
+        flags_of = [case['first']['cc']] + [l['cc'] for l in links]
+        for k, r in enumerate(requests):
+            h = handles[k]
+            asked = instances[r['w']]
+            keeps = h.cached and h() is asked
+            res.stats['chain_clear_current_checked'] += 1
+            if keeps == flags_of[k]:
+                res.div(r['seq'], 'chain-clear-current', f'request {k} of the '
+                        f'chain (clear_current={flags_of[k]}): afterwards '
+                        'the handle that was left '
+                        + ('still holds' if keeps else 'no longer holds')
+                        + ' the world that asked', not flags_of[k], keeps,
+                        tail=tail)
+                return res
     # intermediate worlds were left again: they hold whatever they get
     for e in log:
         if e['kind'] in ('on_update',) and e['seq'] > requests[0]['seq'] \
